@@ -266,6 +266,7 @@ theorem InvF.step {s : State} (hF : InvF s) (op : Op) : InvF (step s op) := by
   | lockrec cid b => exact ⟨hA.same rfl (Perm.refl _) rfl rfl rfl rfl rfl, hb⟩
   | setlimit cid l => exact ⟨hA.same rfl (Perm.refl _) rfl rfl rfl rfl rfl, hb⟩
   | cfgcancel b => exact ⟨hA.same rfl (Perm.refl _) rfl rfl rfl rfl rfl, hb⟩
+  | panicRecover => exact ⟨hA, hb⟩
 
 theorem InvF.init (n limit nfwd : Nat) : InvF (init n limit nfwd) := by
   refine ⟨⟨?_, ?_, ?_, ?_, ?_, ?_, ?_, ?_, ?_⟩, rfl⟩ <;> simp [CGV.BatchMux.init, ids, locs]
